@@ -90,3 +90,35 @@ package sqlx
 //@   nomethods txSession: Commit, Rollback
 //@   ensures implies(err != nil, tx == nil)
 //@   ensures implies(err == nil, tx != nil && typeIs(tx, txSession))
+
+// a connection built from a transaction session never starts (or pretends to start) a nested transaction: the body is not
+// run and the caller is told so
+//@ func (s txConn) Transact
+//@   property C14
+//@   flag callbacks_noheap
+//@   ensures result == errCantNestTx && commits == old(commits) && rollbacks == old(rollbacks)
+//@ func (s txConn) TransactCtx
+//@   property C14
+//@   flag callbacks_noheap
+//@   ensures result == errCantNestTx && commits == old(commits) && rollbacks == old(rollbacks)
+
+// statements inside a transaction never end it: only transactOnConn commits or rolls back (exactly once), whatever a
+// statement's outcome or its context's state
+//@ func (t txSession) ExecCtx
+//@   property C14
+//@   ensures commits == old(commits) && rollbacks == old(rollbacks)
+//@ func (t txSession) PrepareCtx
+//@   property C14
+//@   ensures commits == old(commits) && rollbacks == old(rollbacks)
+//@ func (t txSession) QueryRowCtx
+//@   property C14
+//@   ensures commits == old(commits) && rollbacks == old(rollbacks)
+//@ func (t txSession) QueryRowPartialCtx
+//@   property C14
+//@   ensures commits == old(commits) && rollbacks == old(rollbacks)
+//@ func (t txSession) QueryRowsCtx
+//@   property C14
+//@   ensures commits == old(commits) && rollbacks == old(rollbacks)
+//@ func (t txSession) QueryRowsPartialCtx
+//@   property C14
+//@   ensures commits == old(commits) && rollbacks == old(rollbacks)
